@@ -60,6 +60,19 @@ void run_c18(const std::vector<std::vector<std::string>>& cases, vt::Rng& rng)
          // new-physics scale near (and below) the muon mass: the logarithm in the 2L uncertainty changes sign
          p.mb.mA = rng.logu(0.03, 1.0);
          p.mb.m122 = rng.uni(-100, 100);
+      } else if (cls == "decoupled") {
+         // aligned and heavy: a_mu far below the documented floor 2e-12 of the two-loop uncertainty
+         p.mb.mH = rng.logu(3000, 10000); p.mb.mA = p.mb.mH * rng.uni(0.98, 1.02); p.mb.mHp = p.mb.mH * rng.uni(0.98, 1.02);
+         p.mb.sin_beta_minus_alpha = 1.0;
+         p.mb.lambda_6 = 0; p.mb.lambda_7 = 0;
+         p.mb.tan_beta = rng.logu(0.5, 5);
+         p.mb.m122 = p.mb.mA * p.mb.mA * p.mb.tan_beta / (1 + p.mb.tan_beta * p.mb.tan_beta);
+      } else if (cls == "leptophobic") {
+         // type I / Y at large tan(beta): lepton couplings suppressed by cot(beta)
+         p.mb.yukawa_type = rng.coin() ? thdm::Yukawa_type::type_1 : thdm::Yukawa_type::type_Y;
+         p.mb.tan_beta = rng.logu(20, 100);
+         p.mb.mA = rng.logu(100, 600); p.mb.mHp = rng.logu(100, 600); p.mb.mH = p.mb.mh + rng.logu(10, 500);
+         p.mb.sin_beta_minus_alpha = rng.coin() ? 1.0 : 1.0 - rng.logu(1e-8, 1e-4);
       } else if (cls == "cancel") {
          // large tan(beta) type II/X: 1L (negative from A/H) against 2L Barr-Zee (positive from A)
          p.mb.yukawa_type = rng.coin() ? thdm::Yukawa_type::type_2 : thdm::Yukawa_type::type_X;
